@@ -35,8 +35,8 @@ pub fn all() -> Vec<Prop> {
                 "documents come from the C01 generator (carve-outs of DESIGN.md 3.2)",
             ],
             batches: vec![
-                Batch { name: "sweep", scenario: crate::scen_a::c19_sweep, quick: 700, thorough: 6000, varies: "fault offset x fault kind x EINTR bursts x chunk policy x xref format x plain/incremental" },
-                Batch { name: "file", scenario: crate::scen_a::c19_file, quick: 60, thorough: 400, varies: "real kernel faults on save(path): ENOSPC below/above the BufWriter buffer, ENOENT, EISDIR" },
+                Batch { name: "sweep", scenario: crate::scen_a::c19_sweep, quick: 30000, thorough: 40000, varies: "fault offset x fault kind x EINTR bursts x chunk policy x xref format x plain/incremental" },
+                Batch { name: "file", scenario: crate::scen_a::c19_file, quick: 600, thorough: 6000, varies: "real kernel faults on save(path): ENOSPC below/above the BufWriter buffer, ENOENT, EISDIR" },
             ],
         },
         Prop {
@@ -50,6 +50,18 @@ pub fn all() -> Vec<Prop> {
                 "equality is rules R1-R4 of DESIGN.md 3.4",
             ],
             batches: vec![Batch { name: "roundtrip", scenario: crate::scen_a::c01_roundtrip, quick: 40000, thorough: 600000, varies: "sink chunking/EINTR x source chunking/EINTR x loader completion order x repeated cycles x parallel/sequential reader" }],
+        },
+        Prop {
+            id: "C03",
+            level: "exploration",
+            rule: "one case = one generated document persisted in every way lopdf can persist it (fresh save through a chunking sink, save after a failed save, reload + resave with the xref format possibly flipped, 0-2 incremental appends); \
+                   every fully accepted image is read by the independent strict reader (DESIGN.md 3.3), which must accept it, account for every byte and recover exactly the model; \
+                   distinct = distinct hash of the image sequence; non-trivial = document has at least one object",
+            assumptions: &[
+                "the strict reader implements exactly the structural demands C03 lists (header + binary comment, startxref, exact offsets, 20-byte entries, W/Index/Length consistency, stream Length, Size, byte accounting)",
+                "for incremental saves the previously accepted image is trusted as a prefix",
+            ],
+            batches: vec![Batch { name: "images", scenario: crate::scen_a::c03_images, quick: 40000, thorough: 600000, varies: "sink chunking/EINTR x failed-then-repeated saves x reload/resave x incremental appends (persist step under faults)" }],
         },
     ]
 }
